@@ -131,6 +131,10 @@ func (ctx *EntryContext) Reset() {
 		ctx.RuleCheckResult = NewTokenResultPass()
 	} else {
 		ctx.RuleCheckResult.ResetToPass()
+		// The node lists belong to the finished request: a pooled result must not carry
+		// them over to the next request, whose chain may not run the outlier check at all.
+		ctx.RuleCheckResult.SetFilterNodes(nil)
+		ctx.RuleCheckResult.SetHalfOpenNodes(nil)
 	}
 	if len(ctx.Data) != 0 {
 		ctx.Data = make(map[interface{}]interface{})
